@@ -18,6 +18,8 @@ type famOut struct {
 	// (`alias "MODULE/dir"`) of p/types.go and p/conv.go
 	Pkgs        map[string]string
 	TypeImports []string
+	// declarations put into p/conv.go (which gets the same imports) so that every import is used there
+	ConvAnchors []string
 }
 
 func (f *famOut) add(name, src string) {
@@ -44,13 +46,14 @@ func merge(fs ...*famOut) *famOut {
 			out.Pkgs[k] = v
 		}
 		out.TypeImports = append(out.TypeImports, f.TypeImports...)
+		out.ConvAnchors = append(out.ConvAnchors, f.ConvAnchors...)
 	}
 	return out
 }
 
 func (f *famOut) batch(tag string, vals int) *k2Batch {
 	return &k2Batch{Tag: tag, Types: f.Types, Extra: f.Custom, Convs: f.Convs, Order: f.Order, FailOn: f.FailOn, ValModes: vals, Share: 20,
-		Pkgs: f.Pkgs, TypeImports: f.TypeImports}
+		Pkgs: f.Pkgs, TypeImports: f.TypeImports, ConvAnchors: f.ConvAnchors}
 }
 
 var wrapModes = []string{"", "wrapErrors", "wrapErrorsUsing MODULE/wrap"}
@@ -90,6 +93,7 @@ type %[1]sOuter struct {
 	Y  *%[1]sA
 	Z  []%[1]sA
 	M  map[string]%[1]sA
+	MK map[%[1]sA]%[1]sA
 	N  %[1]sInner
 	Ls []%[1]sInner
 %[2]s}
@@ -102,6 +106,7 @@ type %[1]sOuterT struct {
 	Y  *%[1]sB
 	Z  []%[1]sB
 	M  map[string]%[1]sB
+	MK map[%[1]sB]%[1]sB
 	N  %[1]sInnerT
 	Ls []%[1]sInnerT
 %[2]s}
@@ -168,7 +173,7 @@ type %[1]sInnerT struct {
 	}
 	methods := []struct{ name, s, t string }{
 		{"Direct", p + "A", p + "B"}, {"Ptr", "*" + p + "A", "*" + p + "B"}, {"Slice", "[]" + p + "A", "[]" + p + "B"},
-		{"Map", "map[string]" + p + "A", "map[string]" + p + "B"}, {"Deep", p + "Outer", p + "OuterT"}, {"DeepPtr", "*" + p + "Outer", "*" + p + "OuterT"},
+		{"Map", "map[string]" + p + "A", "map[string]" + p + "B"}, {"MapK", "map[" + p + "A]" + p + "A", "map[" + p + "B]" + p + "B"}, {"Deep", p + "Outer", p + "OuterT"}, {"DeepPtr", "*" + p + "Outer", "*" + p + "OuterT"},
 		{"SliceOfPtr", "[]*" + p + "Outer", "[]*" + p + "OuterT"},
 	}
 	for _, m := range methods {
@@ -350,6 +355,18 @@ type %[1]sOut struct {
 			b.WriteString(fmt.Sprintf("\tUp%d(target *%sOut, source %s)%s\n", i, p, src, res))
 		}
 	}
+	// source and target of the SAME struct type, no field setting on the method itself (zero guards come from the
+	// converter level or from a :basic/:struct/:nillable part)
+	if r.Chance(55) {
+		b.WriteString("\t// goverter:update target\n")
+		for _, fl := range flags[1:] {
+			if r.Chance(25) {
+				b.WriteString("\t// goverter:" + fl + "\n")
+			}
+		}
+		src := rng.Pick(r, []string{p + "In", "*" + p + "In"})
+		b.WriteString(fmt.Sprintf("\tSame(source %s, target *%sIn)%s\n", src, p, rng.Pick(r, []string{"", " error"})))
+	}
 	b.WriteString("}\n\n")
 	f.add(p+"C", b.String())
 	return f
@@ -483,10 +500,11 @@ func famEnum(r *rng.R, id int) *famOut {
 	// methods through different structs: one sibling may disable enum handling (method level), which must not change the other
 	qa, qb := strings.ToLower(p)+"qa", strings.ToLower(p)+"qb"
 	f.Pkgs = map[string]string{
-		qa + "/e.go": fmt.Sprintf("package %s\n\ntype Kind %s\n\nconst (\n\tOne Kind = %s\n\tTwo Kind = %s\n)\n", qa, under, lit(1), lit(2)),
-		qb + "/e.go": fmt.Sprintf("package %s\n\ntype Kind %s\n\nconst (\n\tOne Kind = %s\n\tTwo Kind = %s\n\tOther Kind = %s\n)\n", qb, under, lit(21), lit(22), lit(98)),
+		qa + "/e.go": fmt.Sprintf("package %s\n\ntype Kind %s\n\nconst (\n\tOne Kind = %s\n\tTwo Kind = %s\n)\n\ntype Mode %s\n\nconst (\n\tFast Mode = %s\n\tSlow Mode = %s\n)\n", qa, under, lit(1), lit(2), under, lit(3), lit(4)),
+		qb + "/e.go": fmt.Sprintf("package %s\n\ntype Kind %s\n\nconst (\n\tOne Kind = %s\n\tTwo Kind = %s\n\tOther Kind = %s\n)\n\ntype Mode %s\n\nconst (\n\tFast Mode = %s\n\tSlow Mode = %s\n\tQuick Mode = %s\n)\n", qb, under, lit(21), lit(22), lit(98), under, lit(33), lit(34), lit(35)),
 	}
 	f.TypeImports = []string{fmt.Sprintf("%q", "MODULE/"+qa), fmt.Sprintf("%q", "MODULE/"+qb)}
+	f.ConvAnchors = []string{fmt.Sprintf("var _ = %s.One", qa), fmt.Sprintf("var _ = %s.One", qb)}
 	sb.WriteString(fmt.Sprintf("type %[1]sWa struct {\n\tE %[2]s.Kind\n}\ntype %[1]sWaT struct {\n\tE %[3]s.Kind\n}\ntype %[1]sWb struct {\n\tE %[2]s.Kind\n\tL []%[2]s.Kind\n}\ntype %[1]sWbT struct {\n\tE %[3]s.Kind\n\tL []%[3]s.Kind\n}\n", p, qa, qb))
 	f.Types = sb.String()
 	var b strings.Builder
@@ -536,6 +554,26 @@ func famEnum(r *rng.R, id int) *famOut {
 		b.WriteString(fmt.Sprintf("\t%s(source %sWa) %s\n", names[0], p, res(p+"WaT")))
 		b.WriteString(fmt.Sprintf("\t%s(source %sWb) %s\n", names[1], p, res(p+"WbT")))
 	}
+	// a direct method on a third pair (same member names in two packages): an explicit enum:map (also the identity
+	// `Fast Fast`) wins over a transformer that maps the same member elsewhere; members without either keep their name
+	if r.Chance(75) {
+		if r.Chance(70) {
+			b.WriteString("\t// goverter:enum:transform regex Fast Quick\n")
+		}
+		switch r.Intn(4) {
+		case 0:
+			b.WriteString("\t// goverter:enum:map Fast Fast\n")
+		case 1:
+			b.WriteString("\t// goverter:enum:map Fast Slow\n")
+		case 2:
+			b.WriteString("\t// goverter:enum:map Slow Slow\n")
+		}
+		t := qb + ".Mode"
+		if unknown == "@error" || r.Chance(30) {
+			t = "(" + t + ", error)"
+		}
+		b.WriteString(fmt.Sprintf("\tMd(source %s.Mode) %s\n", qa, t))
+	}
 	b.WriteString("}\n\n")
 	f.add(p+"C", b.String())
 	return f
@@ -547,13 +585,24 @@ func famMethods(r *rng.R, id int) *famOut {
 	f := &famOut{}
 	withCtx := r.Chance(35)
 	fallible := map[string]bool{"Label": r.Chance(70), "NTitle": r.Chance(40), "Via": r.Chance(40), "Birth": r.Chance(75), "NBirth": r.Chance(60)}
+	// matchIgnoreCase with fields that are case variants of method names: the exactly named method wins over the field
+	// (target Title<p>); a field and a method that both match only case-insensitively are an error (target Dual<p>)
+	ic := r.Chance(45)
+	caseFields, caseTargets := "", ""
+	if ic {
+		caseFields = fmt.Sprintf("\tTITLE%s string\n", strings.ToUpper(p))
+		if r.Chance(40) {
+			caseFields += fmt.Sprintf("\tDUAL%s string\n", strings.ToUpper(p))
+			caseTargets = fmt.Sprintf("\tDual%s string\n", p)
+		}
+	}
 	f.Types = fmt.Sprintf(`type %[1]sIn struct {
 	Name    string
 	Age     int
 	Nested  %[1]sNested
 	PNested *%[1]sNested
 	PP      **%[1]sNested
-}
+%[2]s}
 type %[1]sNested struct {
 	Street string
 	N      int
@@ -563,6 +612,7 @@ type %[1]sB struct {
 }
 type %[1]sOut struct {
 	Title%[1]s string
+%[3]s
 	Label    string
 	NTitle   string
 	PTitle   *string
@@ -570,7 +620,7 @@ type %[1]sOut struct {
 	Ctx      string
 	Age      int
 }
-`, p)
+`, p, caseFields, caseTargets)
 	var cb strings.Builder
 	meth := func(recv, name string, fallible bool, ctx bool) {
 		params, args := "", "s"
@@ -585,6 +635,9 @@ type %[1]sOut struct {
 		}
 	}
 	meth(p+"In", "Title"+p, false, false)
+	if caseTargets != "" {
+		meth(p+"In", "DuAl"+p, false, false) // with field DUAL<P>: two case-insensitive candidates for Dual<p>, no exact one
+	}
 	meth(p+"In", "Label"+p, fallible["Label"], false)
 	meth(p+"Nested", "NTitle"+p, fallible["NTitle"], false)
 	meth(p+"In", "CtxTitle"+p, false, true)
@@ -601,6 +654,9 @@ type %[1]sOut struct {
 	b.WriteString("// goverter:converter\n")
 	if wm := rng.Pick(r, wrapModes); wm != "" {
 		b.WriteString("// goverter:" + wm + "\n")
+	}
+	if ic {
+		b.WriteString("// goverter:matchIgnoreCase\n")
 	}
 	b.WriteString("type " + p + "C interface {\n")
 	var lines []string
